@@ -34,7 +34,7 @@ out = ['# Seeded changes\n',
 for r in rows:
     out.append('| %s | %s | %s | %s | %s | %s |' % r)
 n = len(rows); c = sum(1 for r in rows if r[2] == 'caught')
-out.append('\n%d of %d confirmed changes are reported by the quick check of their property.' % (c, n))
+out.append('\n%d of %d confirmed changes are reported by a quick check (of their own property unless the obligations column names another).' % (c, n))
 out.append('\nMisses and why (see DESIGN.md section 6):')
 for r in rows:
     if r[2] != 'caught':
